@@ -74,7 +74,7 @@ pub fn check_batch(b: &KuBatch, probe: &Probe) -> Verdict {
 }
 
 const ALPHA: &[&str] = &["a", "a ", " a", "b", "", "  ", "A", "id:1 x", "id:1 y", "id:2 x", "zzz id:01", "a\u{a0}", "\u{3000}"];
-const RES: &[Option<&str>] = &[None, Some(""), Some("id:(?P<value>[0-9]+)"), Some("id:[0-9]+")];
+const RES: &[Option<&str>] = &[None, Some(""), Some("id:(?P<value>[0-9]+)"), Some("id:[0-9]+"), Some("id:(?<value>[0-9]+)")];
 
 pub fn enumerated(max_len: usize, batch: usize) -> Vec<KuBatch> {
     let mut specs = vec![];
